@@ -68,6 +68,12 @@ def _corpus_programs():
     ps.append({"op": "query", "fields": [F(0, "C", ["obj", [F(1, "S", ["snull"], nn=True), F(2, "C", ["sbad", 11])]]),
                                          F(3, "C", I(3))]})
     ps.append({"op": "query", "fields": [F(0, "S", ["sbad", 12], nn=True), F(1, "C", I(1))]})
+    # resolver attachment through the default resolver: method returning a deferred value (D),
+    # attribute (A), dict value (V); with a middleware
+    ps.append({"op": "query", "fields": [F(0, "D", ["obj", [F(1, "C", I(1)), F(2, "A", I(2)), F(3, "D", ["err"], sh="i")]]),
+                                         F(4, "A", ["list", False, "obj", [["obj", [F(5, "D", I(5))]], ["obj", [F(5, "D", ["exn", 4], sh="i")]]]])]})
+    ps.append({"op": "query", "fields": [F(0, "V", ["obj", [F(1, "V", I(1)), F(2, "C", I(2), lv=1)]]), F(3, "V", ["null"], nn=True, sh="in")],
+               "mw": True})
     return ps
 
 
